@@ -381,6 +381,7 @@ pub fn run(tier: &str, seed: u64, out: &Path) -> i32 {
         crate::lists_corr::cases(&mut o, &mut r, th);
         crate::lists_corr::struct_lit_cases(&mut o, &mut r, th);
         crate::strings_corr::cases_c01(&mut o, &mut r, th);
+        crate::macros_corr::cases(&mut o, &mut r, th);
     }
     o.finish(out, jobs())
 }
